@@ -152,7 +152,8 @@ impl Inner {
             ) {
                 Ok(_) => Some(&*(parsed as *const String)),
                 Err(e) => {
-                    Arc::decrement_strong_count(parsed);
+                    // release the losing decoding as what it is: an `Arc<String>`
+                    Arc::decrement_strong_count(parsed as *const String);
                     Some(&*(e as *const String))
                 }
             }
